@@ -17,7 +17,7 @@ from ..runner import jhash
 
 LEVEL = "exploration"
 RULE = ("histories = sequences of connection operations {connect-by-call, connect-by-assignment, connect(), replace(), "
-        "disconnect()} on the ports (one bus port, one bundle port) of a target instance (single, array, pair), the connected "
+        "disconnect(), and refused operations: replace / disconnect of an unconnected port, a non-connectable value} on the ports (one bus port, one bundle port) of a target instance (single, array, pair), the connected "
         "object ranging over Signal, Slice, Concat, PortRef, NoConn, BundleRef (scalar port) and BundleInstance, AnonymousBundle, "
         "PortRef-to-bundle-port, BundleRef-to-sub-bundle, NoConn (bundle port); every (port, kind) sequence up to length 3 is "
         "enumerated (form chosen by seed), then completed to a valid mapping; plus seeded histories of length <= 8 (quick) / 12. "
@@ -27,9 +27,11 @@ ASSUMPTIONS = [
     "edits to a connectable after connecting it are not operations of the property",
     "other instances' ports are always explicitly connected, so a replaced port reference never leaves a port dangling",
 ]
-REQUIRED_COUNTERS = ["oracle.compared", "ops.replace", "ops.disconnect", "ops.setattr", "ops.call", "ops.connect", "ops.on-referrer"]
+REQUIRED_COUNTERS = ["oracle.compared", "ops.replace", "ops.disconnect", "ops.setattr", "ops.call", "ops.connect", "ops.on-referrer", "ops.refused"]
 MIN_EVALS = 1500
 MIN_NONTRIVIAL = 1000
+
+FAILING = ("replace!", "disconnect!", "badtype", "badtype-replace")
 
 BUNDLES = {
     "B1": {"sigs": [["x", 1, "sig"], ["y", 2, "sig"]], "subs": [], "roles": None},
@@ -164,7 +166,7 @@ def run_history(rec, kind, hist, sample=False):
     # realise expressions up front (so the replay file is self-contained)
     concrete = []
     for form, port, k in hist:
-        e = None if form == "disconnect" else realize(kind, port, k)
+        e = None if form in ("disconnect", "disconnect!", "badtype", "badtype-replace") else realize(kind, port, k)
         concrete.append([form, port, k, e])
     case = {"kind": "history", "target": kind, "ops": concrete}
     built = build.Built()
@@ -189,6 +191,29 @@ def run_history(rec, kind, hist, sample=False):
                 d.disconnect(pname)
                 model.pop(port, None)
                 continue
+            if form in FAILING:
+                # an operation that the library refuses: nothing was made, so nothing may remain of it
+                bad = {"badtype": 5, "badtype-replace": "nope"}.get(form)
+                obj = bad if bad is not None else (mb.expr(e) if e is not None else None)
+                try:
+                    if form == "disconnect!":
+                        d.disconnect(pname)
+                    elif form in ("replace!", "badtype-replace"):
+                        d.replace(pname, obj)
+                    elif form == "badtype":
+                        d.connect(pname, obj)
+                except Exception:
+                    rec.count("ops.refused")
+                    continue
+                if form == "replace!":  # accepted after all: then it is the last connection made
+                    model[port] = e
+                    kinds_seen.setdefault(port, []).append(k)
+                    rec.count("ops.refusal-expected-but-accepted")
+                    continue
+                if form == "disconnect!":
+                    continue
+                rec.count("generator.badtype-accepted")
+                return
             obj = mb.expr(e)
             if form == "call":
                 d(**{pname: obj})
@@ -249,6 +274,14 @@ def gen_random(rng, kind, maxlen):
     for _ in range(rng.randint(2, maxlen)):
         port = rng.choice(ports_of(kind))
         x = rng.random()
+        if rng.random() < 0.15:
+            # a refused operation: replace / disconnect of an unconnected port, a non-connectable value
+            if port not in model:
+                form = rng.choice(["replace!", "disconnect!", "badtype"])
+            else:
+                form = rng.choice(["badtype", "badtype-replace"])
+            hist.append((form, port, rng.choice(list(kinds_for(kind, port))) if form == "replace!" else None))
+            continue
         if port in model and x < 0.18:
             hist.append(("disconnect", port, None))
             model.pop(port)
@@ -284,6 +317,8 @@ def run(ctx, rec):
                     form = rng.choice(["setattr", "call", "connect"])
             else:
                 form = rng.choice(["setattr", "call", "connect"])
+                if rng.random() < 0.2:
+                    hist.append(("replace!", p, rng.choice(list(kinds_for("single", p)))))
             hist.append((form, p, k))
             model[p] = k
         cases.append(("single", hist + complete("single", model, rng)))
